@@ -23,7 +23,8 @@ MCInit == Init /\ h = <<>>
 
 MCNext ==
     \/ \E n \in Names : CreateTable(n) /\ Settle([a |-> "ct", n |-> n])
-    \/ \E n \in Names : CreateView(n)  /\ Settle([a |-> "cv", n |-> n])
+    \/ \E n, m \in Names : CreateView(n, m) /\ Settle([a |-> "cv", n |-> n, base |-> m])
+    \/ \E n \in Names : DropRefused(n) /\ Settle([a |-> "dtx", n |-> n])
     \/ \E n \in Names : DropTable(n)   /\ Settle([a |-> "dt", n |-> n])
     \/ CreateIndex /\ Settle([a |-> "ci"])
     \/ \E n \in Names : Compact(n)     /\ Settle([a |-> "compact", n |-> n])
